@@ -140,7 +140,12 @@ def cleanup_taken_once(ctx):
     if not intr:
         raise AnchorMissing('interrupting _cleanup(self.next_task) not found in cycle')
     for c in intr:
-        ok = any(isinstance(a, ast.If) and 'not self.cleanup_reason' in src(a.test) and 'self.next_task' in src(a.test) for a in ancestors(c))
+        ok = False
+        for a in ancestors(c):
+            if isinstance(a, ast.If) and isinstance(a.test, ast.BoolOp) and isinstance(a.test.op, ast.And):
+                parts = [src(v) for v in a.test.values]
+                if 'self.next_task' in parts and ('not self.cleanup_reason' in parts or 'self.cleanup_reason is None' in parts):
+                    ok = True
         ctx.check(ok, f'{f.qualname}:no interruption while cleaning up', c, 'guarded by `self.next_task and not self.cleanup_reason`',
                   'a running cleanup sequence can be interrupted / restarted by a new task', f)
     resets = [(fi, s) for fi in m.cls(SM).methods.values() for t, v, s in attr_stores(fi.node)
